@@ -370,6 +370,11 @@ def run(ctx):
             it = npath(b.impl_trait) if b.impl_trait else None
             if it in ("IntoValue", "Map", "Sequence") or (it in ("DeserializeError", "MergeWithError")) or \
                     (b.kind in ("Fn", "Closure") and b.path.startswith("errors::")):
+                if b.kind in ("Fn", "AssocFn"):
+                    # a private helper that holds part of the function (the number ladder of the bridge, a step of a
+                    # description) is judged where it is used, with the guards of its caller
+                    import inline
+                    b = inline.expand_local_helpers(lib_crate, b)
                 v = View(b)
                 for s in census(lib_crate, b, v, panicky):
                     total += 1
